@@ -1,6 +1,7 @@
 package main
 
 import (
+	"encoding/json"
 	"bytes"
 	"errors"
 	"io"
@@ -90,11 +91,14 @@ func modeAlphabet(full bool) []modeCall {
 			set("SetJSONMode(true,false)", func(t *slog.Entry) *slog.Entry { return t.SetJSONMode(true, false) }, jsonNext(false)),
 			set("SetColorMode(true,false)", func(t *slog.Entry) *slog.Entry { return t.SetColorMode(true, false) }, colorNext(false)),
 			set("SetColorMode(false,true)", func(t *slog.Entry) *slog.Entry { return t.SetColorMode(false, true) }, colorNext(true)),
+			// (the new child has a sibling whose name differs from its own in the case of the letters only)
 			modeCall{"New(opt WithJSONMode(true))", func(t *slog.Entry, seq int) (*slog.Entry, bool) {
+				_ = t.New(fmt.Sprintf("OptJ%d", seq))
 				return t.New(fmt.Sprintf("optj%d", seq), slog.WithJSONMode(true)), true
 			}, jsonNext(true)},
 			modeCall{"New(opt WithColorMode(false))", func(t *slog.Entry, seq int) (*slog.Entry, bool) {
-				return t.New(fmt.Sprintf("optc%d", seq), slog.WithColorMode(false)), true
+				_ = t.New(fmt.Sprintf("optc%d", seq))
+				return t.New(fmt.Sprintf("OPTC%d", seq), slog.WithColorMode(false)), true
 			}, colorNext(false)},
 			modeCall{"New(opt WithJSONMode(false))", func(t *slog.Entry, seq int) (*slog.Entry, bool) {
 				return t.New(fmt.Sprintf("optn%d", seq), slog.WithJSONMode(false)), true
@@ -173,14 +177,21 @@ func modeAlphabet(full bool) []modeCall {
 	return a
 }
 
-func classify(p []byte) (Format, bool) {
+// classify names the format of a payload and says whether the payload is, as a whole, a record of that format: a JSON
+// record is one line holding one valid object, a logfmt record one line of pairs (under go test a record that carries
+// an error value is followed by the plain-text dump of that error), neither of them contains an escape byte; a colored
+// record does.
+func classify(p []byte, dumpAllowed bool) (Format, bool) {
+	whole := len(p) > 0 && p[len(p)-1] == '\n'
+	oneLine := whole && bytes.Count(p, []byte{'\n'}) == 1
+	esc := bytes.IndexByte(p, 0x1b) >= 0
 	switch {
 	case len(p) > 0 && p[0] == '{':
-		return FJSON, true
-	case bytes.IndexByte(p, 0x1b) >= 0:
-		return FColor, true
+		return FJSON, oneLine && !esc && json.Valid(p[:len(p)-1])
 	case bytes.HasPrefix(p, []byte("time=")):
-		return FLogfmt, true
+		return FLogfmt, whole && !esc && (oneLine || dumpAllowed)
+	case esc:
+		return FColor, whole
 	}
 	return 0, false
 }
@@ -243,18 +254,25 @@ func c11run(c *Ctx, idx int, log *mon.Log, w mon.W, alpha []modeCall, steps []c1
 			}
 			// every other probe carries an error value (under go test the library appends a dump of it to the record:
 			// that dump belongs to the record and has the record's format)
+			// ... and every third one has a message of several lines
+			msg := "shape-probe"
+			if (si+2*i)%3 == 0 {
+				msg = "shape-probe\nsecond line of the probe\nthird"
+				c.R.Add("probes_with_a_message_of_several_lines", 1)
+			}
+			withErr := (si+i)%2 != 0
 			evs := capture(log, func() {
-				if (si+i)%2 == 0 {
-					l.Info("shape-probe", "k", 1)
+				if !withErr {
+					l.Info(msg, "k", 1)
 				} else {
-					l.Warn("shape-probe", "k", 1, "err", errProbe)
+					l.Warn(msg, "k", 1, "err", errProbe)
 				}
 			})
 			if len(evs) != 1 {
 				c.R.Violation(idx, "probe", "C11/probe/count", fmt.Sprintf("probe produced %d events", len(evs)), map[string]any{"sequence": hist})
 				return false
 			}
-			got, ok := classify(evs[0].Data)
+			got, ok := classify(evs[0].Data, withErr && c.Testing)
 			c.R.Add("probes_classified", 1)
 			if !ok || got != want {
 				who := "the-target"
